@@ -14,7 +14,7 @@ PROPERTY = "C01"
 HANG_SECONDS = 60.0
 LINE_BUDGET = 1000000000
 RULE = ("Hypothesis-generated LayoutHandler configurations (ndims 2-4, extents 1-9 biased to n=p, p+1, "
-        "2p+-1, process grids of length 1-2 incl. leading 1, layout sets connected by construction or "
+        "2p+-1, process grids of length 1-3 incl. leading 1, layout sets connected by construction or "
         "arbitrary subsets of S_n, float/complex/int payload = injective code of the global index, "
         "sentinel-filled buffers of exactly bufferSize) with lists of transposes (independent or "
         "chained, with/without spare buffer) run on a simulated MPI world under a generated schedule; "
@@ -38,7 +38,11 @@ def cases(draw, tier):
     ndims = draw(st.sampled_from([2, 3, 3, 4, 4, 4]))
     grids = gen.all_process_grids(max_procs, 1, min(2, ndims))
     both = [g for g in grids if len(g) == 2 and g[0] > 1 and g[1] > 1]
-    if ndims >= 3 and both and draw(st.integers(0, 2)) > 0:
+    pick = draw(st.integers(0, 7))
+    if ndims >= 3 and pick == 0:
+        # three distributed directions (the handler is not limited to 2-D process grids)
+        nprocs = draw(st.sampled_from(gen.all_process_grids(max_procs, 3, 3, max_entry=3)))
+    elif ndims >= 3 and both and pick <= 5:
         nprocs = draw(st.sampled_from(both))
     else:
         nprocs = draw(st.sampled_from(grids))
